@@ -13,7 +13,7 @@ Not decided: that the select loop always makes progress (liveness over timer/com
 """
 from ..inline import inline_view
 from ..mir import AnchorLost
-from ..util import closure_family, captured_context, creation_site, dj_of, cmp_truth, df_of, fn_short, in_set, callers_keys, backward_slice
+from ..util import truth_edges, closure_family, captured_context, creation_site, dj_of, cmp_truth, df_of, fn_short, in_set, callers_keys, backward_slice
 
 SE = "scylla::policies::speculative_execution::"
 
@@ -153,6 +153,39 @@ def r2_r4(ctx, facts):
                     % (empty, nomore, from_last, df.fmt_state(st)), span)
     if n == 0:
         raise AnchorLost("execute: no exit found")
+    # the remembered error is the LAST ignorable one: every ignorable result overwrites the slot, nothing else touches it
+    def is_some_store(st):
+        if not (st[0] == "A" and st[1][0] in last_err and not st[1][1]):
+            return False
+        rv = st[2]
+        if rv[0] == "agg" and rv[1][0] == "adt" and rv[1][2] == "Some":
+            return True
+        if rv[0] == "use" and rv[1][0] in ("c", "m") and not rv[1][1][1]:
+            sd = b.single_def(rv[1][1][0])
+            return bool(sd and sd[0] == "stmt" and sd[3][0] == "agg" and sd[3][1][0] == "adt" and sd[3][1][2] == "Some")
+        return False
+    store_bbs = {bb for bb in b.live_blocks for st in b.stmts(bb) if is_some_store(st)}
+    # `last_error.insert(r)` / `.replace(r)` overwrite just the same
+    ok_borrow_locals = set()
+    for bb, c in b.calls():
+        if bb in b.live_blocks and (c.decl or "") in ("core::option::Option::<T>::insert", "core::option::Option::<T>::replace") and c.args and c.args[0][0] in ("c", "m"):
+            sd = b.single_def(c.args[0][1][0])
+            if sd and sd[0] == "stmt" and sd[3][0] == "ref" and sd[3][2][0] in last_err:
+                store_bbs.add(bb)
+                ok_borrow_locals.add(c.args[0][1][0])
+    bad = []
+    for c in cbi:
+        for sw, tt, ff in truth_edges(b, df, ("call", c.bb)):
+            reach = b.reachable_from(tt, removed_nodes=store_bbs) if tt not in store_bbs else set()
+            if reach & (set(b.exits) | {x.bb for x in cbi}):
+                bad.append(str(b.term_span(sw)))
+    r4.instance("every-ignorable-result-overwrites-last_error", bool(store_bbs) and not bad,
+                "after can_be_ignored(&r) came out true, `last_error = Some(r)` must be executed before the next result is looked at or the call returns "
+                "(the property promises the LAST error; keeping the first one reports a stale failure): bypass from %s" % bad[:2], b.span)
+    borrows = [b.stmt_span(st) for bb in b.live_blocks for st in b.stmts(bb)
+               if st[0] == "A" and st[2][0] == "ref" and st[2][1] == "m" and st[2][2][0] in last_err and st[1][0] not in ok_borrow_locals]
+    r4.instance("last_error-written-only-by-assignment", not borrows,
+                "`last_error` is handed out as `&mut` (%s): an in-place update such as get_or_insert / or_else keeps an earlier error" % [str(x) for x in borrows[:2]], borrows[0] if borrows else b.span)
 
 
 def r5(ctx, facts):
@@ -223,10 +256,14 @@ def r6(ctx, facts):
     got = {}
     for bb in sorted(b.live_blocks):
         for j, st in enumerate(b.stmts(bb)):
-            if not (st[0] == "A" and st[1] == [0, []] and st[2][0] == "use" and st[2][1][0] == "k" and st[2][1][1] == "int"):
+            if not (st[0] == "A" and st[1] == [0, []]):
                 continue
-            val = bool(int(st[2][1][3]))
+            e_ret = dj.expr_of_rvalue(st[2])
             for stt in dj.states_before_stmt(bb, j):
+                v_ret = dj.eval_in(stt, e_ret) if e_ret is not None else None
+                if v_ret not in (0, 1):
+                    continue        # not a constant verdict in this state (e.g. delegated to DbError::can_speculative_retry)
+                val = bool(v_ret)
                 outer = inner = None
                 for k, v in stt.items():
                     if k[0] != "disc" or v[0] != "in":
